@@ -690,11 +690,16 @@ func (db *DB) Begin(opts ...*sql.TxOptions) *DB {
 		opt = opts[0]
 	}
 
+	// DryRun sends nothing to the database: the handle stays on its pool, Commit and Rollback find nothing to finish
 	switch beginner := tx.Statement.ConnPool.(type) {
 	case TxBeginner:
-		tx.Statement.ConnPool, err = beginner.BeginTx(tx.Statement.Context, opt)
+		if !tx.DryRun {
+			tx.Statement.ConnPool, err = beginner.BeginTx(tx.Statement.Context, opt)
+		}
 	case ConnPoolBeginner:
-		tx.Statement.ConnPool, err = beginner.BeginTx(tx.Statement.Context, opt)
+		if !tx.DryRun {
+			tx.Statement.ConnPool, err = beginner.BeginTx(tx.Statement.Context, opt)
+		}
 	default:
 		err = ErrInvalidTransaction
 	}
@@ -710,7 +715,7 @@ func (db *DB) Begin(opts ...*sql.TxOptions) *DB {
 func (db *DB) Commit() *DB {
 	if committer, ok := db.Statement.ConnPool.(TxCommitter); ok && committer != nil && !reflect.ValueOf(committer).IsNil() {
 		db.AddError(committer.Commit())
-	} else {
+	} else if !db.DryRun {
 		db.AddError(ErrInvalidTransaction)
 	}
 	return db
@@ -722,7 +727,7 @@ func (db *DB) Rollback() *DB {
 		if !reflect.ValueOf(committer).IsNil() {
 			db.AddError(committer.Rollback())
 		}
-	} else {
+	} else if !db.DryRun {
 		db.AddError(ErrInvalidTransaction)
 	}
 	return db
